@@ -188,11 +188,13 @@ def run_property(ctx, pid):
             "extraction (ExtrOcamlBasic only, no Extract Constant/Inductive of our own) + OCaml 4.13.1 + props/C04/driver/c04_driver.ml",
             "Go harness props/C04/harness (generators, executor, classification of errors, snapshots, declarative preconditions), "
             "overlay hooks props/C04/overlay/verif_c04.go (read-only accessors), shared evaluators props/common/vinv",
-            "model coq/C04/{State,Ops,Step,Refs}.v is a hand-written restatement of the Go mutators; tied by the step-by-step comparison above; "
+            "model coq/C04/{State,Ops,Step,Refs,Reg}.v (layers 1, 3, 2) is a hand-written restatement of the Go mutators; tied by the step-by-step comparison above (the replay runs step2, the outermost layer, and compares every component of all three layers); "
             "NodeID/MessageID/CANID (uint32) and int modelled as unbounded Z (arguments stay in range); payload geometry abstracted by an oracle bit",
         ],
     })
     ctx.assumptions = [
+        "theorem side conditions op_ok / op_ok2 / op_ok3: an attach is not applied to an entity or signal that already has another parent, a node has one receiving "
+        "interface per message (open findings D20, D22: the harness generates these calls, they are reported as known findings, *_refuted witnesses in Properties)",
         "an interface removed from its node (Node.RemoveInterface) is a dead object and is not passed to later calls",
         "NewNode is not called with a negative interface count (makeslice panics; a constructor, not a mutating call)",
         "refusals decided by payload geometry (SignalSizeError / StartBitError / ValueIndexError) are taken from the implementation as an oracle bit; they are the subject of C01/C07",
